@@ -6,7 +6,7 @@ of `Instance.lean` (whatever the bodies are) and the open-batch invariant `BInv`
 is maintained with the changed keys read off the trace.
 Part B: from a quiet world (no batch open, nothing queued) every statement leaves a quiet world and a trace
 all of whose units call each registered watcher exactly once iff the unit changed a key it is registered for
-(`Good`, by strong induction on the fuel).
+(`CGood`, by strong induction on the fuel).
 -/
 import ParamVerif.Depends.CascadeSpec
 import ParamVerif.Depends.InstanceLemmas
@@ -336,7 +336,7 @@ theorem flush_quiet (bs : Bodies) (f : Nat) (w : IWorld) (he : w.events = [])
     obtain ⟨rfl, rfl, rfl⟩ := h
     exact ⟨rfl, rfl, rfl⟩
 
-structure Good (bs : Bodies) (f : Nat) : Prop where
+structure CGood (bs : Bodies) (f : Nat) : Prop where
   exec : ∀ (x : IWatcher) (w w' : IWorld) (tr : List T), QW bs w → x ∈ w.regs → runC bs f (.exec x) w = some (true, w', tr) →
     QW bs w' ∧ w'.regs = w.regs ∧ T.callsL tr = [x.method] ∧ T.changedL tr = [] ∧ AllOk w.regs false tr
   body : ∀ (l : List (Name × Int)) (w w' : IWorld) (tr : List T), QW bs w → runC bs f (.body l) w = some (true, w', tr) →
@@ -357,7 +357,7 @@ theorem QW.of_regs {bs : Bodies} {w w' : IWorld} (h : QW bs w) (hb : w'.batch = 
     (hr : w'.regs = w.regs) : QW bs w' :=
   ⟨hb, he, hq, h.regs.of_regs hr, by rw [hr]; exact h.qlog⟩
 
-theorem callW_quiet (bs : Bodies) (f : Nat) (hG : ∀ g < f, Good bs g) (x : IWatcher) (ev : IEv) (w w' : IWorld) (tr : List T)
+theorem callW_quiet (bs : Bodies) (f : Nat) (hG : ∀ g < f, CGood bs g) (x : IWatcher) (ev : IEv) (w w' : IWorld) (tr : List T)
     (hW : QW bs w) (hx : x ∈ w.regs) (h : runC bs f (.callW x ev) w = some (true, w', tr)) :
     QW bs w' ∧ w'.regs = w.regs ∧ T.callsL tr = (if ev.old = ev.new then [] else [x.method]) ∧ T.changedL tr = [] ∧
       AllOk w.regs false tr := by
@@ -373,7 +373,7 @@ theorem callW_quiet (bs : Bodies) (f : Nat) (hG : ∀ g < f, Good bs g) (x : IWa
       exact (hG f (Nat.lt_succ_self f)).exec x w w' tr hW hx h
 
 /-- the flush that closes an outermost block -/
-theorem flush_after (bs : Bodies) (f : Nat) (hG : ∀ g < f, Good bs g) (w w1 w3 : IWorld) (ch : List Key) (t3 : List T)
+theorem flush_after (bs : Bodies) (f : Nat) (hG : ∀ g < f, CGood bs g) (w w1 w3 : IWorld) (ch : List Key) (t3 : List T)
     (hW : QW bs w) (hr : w1.regs = w.regs) (hi : BInv w1 ch)
     (h : runC bs f .flush { w1 with batch := false } = some (true, w3, t3)) :
     QW bs w3 ∧ w3.regs = w.regs ∧ (∀ m, (T.callsL t3).count m = nTouched w.regs m ch) ∧ T.changedL t3 = [] ∧
@@ -422,7 +422,7 @@ theorem flush_after (bs : Bodies) (f : Nat) (hG : ∀ g < f, Good bs g) (w w1 w3
             exact this.append (AllOk.nil _ _)
 
 /-- an outermost block: its statements ran with the flag set (`t1`), then the flush (`t3`) -/
-theorem close_block (bs : Bodies) (f : Nat) (hG : ∀ g < f, Good bs g) (w w1 w3 : IWorld) (t1 t3 : List T) (kind : String)
+theorem close_block (bs : Bodies) (f : Nat) (hG : ∀ g < f, CGood bs g) (w w1 w3 : IWorld) (t1 t3 : List T) (kind : String)
     (hW : QW bs w) (hr : w1.regs = w.regs) (hi : BInv w1 (T.changedL t1)) (hs : Silent t1)
     (h : runC bs f .flush { w1 with batch := false } = some (true, w3, t3)) :
     QW bs w3 ∧ w3.regs = w.regs ∧ AllOk w.regs true [.block kind (t1 ++ t3)] := by
@@ -440,7 +440,7 @@ theorem close_block (bs : Bodies) (f : Nat) (hG : ∀ g < f, Good bs g) (w w1 w3
 theorem BInv.open_ {bs : Bodies} {w : IWorld} (hW : QW bs w) : BInv ({ w with batch := true } : IWorld) [] :=
   ⟨rfl, by simp [hW.queued], fun x => by simp [hW.queued], by simp [hW.events, hW.queued]⟩
 
-theorem good (bs : Bodies) : ∀ f, Good bs f := by
+theorem good (bs : Bodies) : ∀ f, CGood bs f := by
   intro f
   induction f using Nat.strongRecOn with
   | _ f IH =>
@@ -450,8 +450,8 @@ theorem good (bs : Bodies) : ∀ f, Good bs f := by
              fun _ _ _ _ _ _ h => by simp [runC] at h, fun _ _ _ _ _ _ _ h => by simp [runC] at h,
              fun _ _ _ _ _ _ h => by simp [runC] at h, fun _ _ _ _ _ h => by simp [runC] at h⟩
     | succ g =>
-      have hg : Good bs g := IH g (Nat.lt_succ_self g)
-      have IH' : ∀ g' < g, Good bs g' := fun g' h => IH g' (Nat.lt_succ_of_lt h)
+      have hg : CGood bs g := IH g (Nat.lt_succ_self g)
+      have IH' : ∀ g' < g, CGood bs g' := fun g' h => IH g' (Nat.lt_succ_of_lt h)
       refine ⟨?_, ?_, ?_, ?_, ?_, ?_⟩
       · -- exec
         intro x w w' tr hW hx h
